@@ -24,11 +24,13 @@ def check(pid, category, text, note, technique, ref):
 check("C09", "exploration",
       "Runs the real evaluator on every ordered pair of a boundary-dense set of doubles under every "
       "numeric operator / std math function and compares each observed result with Python IEEE "
-      "arithmetic and the platform libm (ctypes); exhaustive over that finite set, says nothing "
-      "about doubles outside it.",
+      "arithmetic and the platform libm (ctypes); exhaustive over that finite set. A seeded dense part adds random "
+      "doubles over the whole exponent range under every operator / function and an integer base x exponent grid for "
+      "std.pow; sorts / comparisons of the boundary set are replayed under ASan and Miri (unchecked unwrap in the "
+      "number ordering). Says nothing about doubles outside what was run.",
       "Trusts CPython float arithmetic, the platform libm and the JSON number round-trip of the "
       "manifest output; build = harness `rel` profile of the working tree.",
-      "runtime monitoring: differential oracle (libm/IEEE reference) over exhaustive boundary pairs",
+      "runtime monitoring: differential oracle (libm/IEEE reference) over exhaustive boundary pairs + seeded dense sample; Miri / ASan on the ordering code",
       "DESIGN.md §3 C09")
 
 check("C08", "exploration",
@@ -46,9 +48,11 @@ check("C08", "exploration",
 check("C04", "exploration",
       "Drives the real parser/evaluator/stdlib with hostile workloads (every std function listed at "
       "run time x boundary argument tuples, random/mutated source text, recursion across the frame "
-      "limit in 7 shapes x 4 limits, 24 runaway-recursion shapes, self-dependent values, syntactic "
+      "limit in 7 shapes x 4 limits, 24 runaway-recursion shapes, self-dependent values and self-referring "
+      "lazily built arrays, external-variable / top-level-argument configurations, syntactic "
       "nesting sweep) on the rel and overflow-checked builds while a panic hook, the worker exit "
-      "status and same-thread sentinel evaluations are monitored; held = no panic/abort/stack "
+      "status and same-thread sentinel evaluations (which probe the exact frame budget of a fresh thread after errors) "
+      "are monitored; held = no panic/abort/stack "
       "overflow on any observed execution; a sample of the jobs is then replayed under AddressSanitizer, valgrind memcheck "
       "and (thorough) Miri, where a report or death by signal is a violation.",
       "Allocation-failure aborts under RLIMIT_AS (8 GiB; 2 GiB for runaway jobs) are classed "
@@ -87,9 +91,11 @@ check("C19", "exploration",
       "comment-decorated variants with the real formatter (3 indents), re-parses the output with the "
       "evaluator's parser and compares canonical trees (modulo the two documented sugar pairs), "
       "comment token sequences from the real lexer and evaluation outcomes; failures are "
-      "delta-debugged to a minimal program and classified.",
+      "delta-debugged to a minimal program and classified. A separate corpus with comments only at the positions "
+      "the formatter supports (before / after an item, end of a list) is judged under its own oracle name, so the "
+      "broad comment findings cannot mask a comment lost or moved there.",
       "A diagnostic from the formatter is always accepted. Known findings cover the prototype "
-      "formatter's comment handling (dropped / swallowing comments).",
+      "formatter's comment handling (dropped / swallowing comments at other positions, re-spacing of `#x`).",
       "runtime monitoring: round-trip oracle (format -> reparse -> compare tree, comments, evaluation) with delta debugging",
       "DESIGN.md §3 C19")
 check("C20", "exploration",
@@ -107,11 +113,15 @@ check("C01", "exploration",
       "tables plus random type-directed programs with the real evaluator under both parsers, minimal "
       "and full parenthesisation and five embedding positions (snippet, imported file, import "
       "expression, ext-code variable, TLA function body) and compares value / error-ness with a "
-      "reference evaluator written from the specification that runs on the generator's AST.",
+      "reference evaluator written from the specification that runs on the generator's AST; 400 inheritance "
+      "chains that apply the same object value twice are part of the table. Experimental-syntax clause: ~1000 "
+      "(sugared, documented desugaring) program pairs are run on a worker built with exp-destruct, "
+      "exp-null-coaelse and exp-object-iteration and must agree; the desugared program must also give the same "
+      "outcome on the standard build.",
       "Trusts mon/ref/interp.py as the semantics (self-validated by agreement with the real evaluator "
       "on > 99.9% of generated programs; every disagreement was classified by hand); the reference "
       "abstains where the documentation does not pin the outcome. Error text is never compared.",
-      "runtime monitoring: differential oracle (independent reference interpreter) + metamorphic relation across parsers/embeddings",
+      "runtime monitoring: differential oracle (independent reference interpreter) + metamorphic relations across parsers / embeddings / sugar-vs-desugaring on the experimental build",
       "DESIGN.md §3 C01")
 check("C03", "exploration",
       "Wraps every sub-expression of generated programs in std.trace with a distinct label, plants "
